@@ -17,6 +17,7 @@ CONSTANTS W,        \* word width of the model
           GBug      \* "none" | design mutants: "signed_read" (reader reads start/step signed, no wrap), "swap_steps" (il/xl step
                     \*   fields exchanged), "trunc_interval" (interval stored in ms for a post-0.1.6 file), "crop_origin" (cropped
                     \*   file keeps the source origin), "count_field" (structured flag from the grid although the count field is present),
+                    \*   "crop_keep_f64" (a crop that starts on a whole millisecond leaves the float64 origin of its source untouched),
                     \*   "crop_trunc" (a crop records its first sample only in the whole-millisecond word: the code before fa3b7fb)
 
 M  == 2 ^ W
@@ -84,7 +85,7 @@ CropGeom(H, box) ==
                   \* the float64 fields when it is not a whole millisecond (or when the source already uses them)
                   !.z0 = PackSigned((R.z0us + box.z0 * R.dz_us) \div 1000),
                   !.fused = H.fused \/ (GBug # "crop_trunc" /\ (R.z0us + box.z0 * R.dz_us) % 1000 # 0),
-                  !.fz0us = R.z0us + box.z0 * R.dz_us,
+                  !.fz0us = IF GBug = "crop_keep_f64" /\ (R.z0us + box.z0 * R.dz_us) % 1000 = 0 THEN H.fz0us ELSE R.z0us + box.z0 * R.dz_us,
                   !.nz = box.z1 - box.z0,
                   !.ntr = (box.i1 - box.i0) * (box.x1 - box.x0)]
 
@@ -97,4 +98,12 @@ CropPreserves(G, box) ==
         \* the first sample of the crop is the source's sample at the first kept index, exactly
         /\ InRange((S.z0us + box.z0 * S.dz_us) \div 1000) => C.z0us = S.z0us + box.z0 * S.dz_us
         /\ C.structured /\ C.ntr = (box.i1 - box.i0) * (box.x1 - box.x0)
+\* two vertical crops in a row (the second on a file that may already use the float64 fields)
+Crop2Preserves(G, z1, z2) ==
+    LET H == EncGeom(G)
+        S == DecGeom(H)
+        full(n, z) == [i0 |-> 0, i1 |-> G.il.count, x0 |-> 0, x1 |-> G.xl.count, z0 |-> z, z1 |-> n]
+        H1 == CropGeom(H, full(G.nz, z1))
+        C == DecGeom(CropGeom(H1, full(G.nz - z1, z2)))
+    IN  InRange((S.z0us + (z1 + z2) * S.dz_us) \div 1000) => (C.z0us = S.z0us + (z1 + z2) * S.dz_us /\ C.nz = G.nz - z1 - z2 /\ C.dz_us = S.dz_us)
 =============================================================================
